@@ -6,6 +6,7 @@ use vcore::runner::{parse_args, run_check};
 mod agg;
 mod c01;
 mod c02;
+mod c04;
 mod c03;
 mod c05;
 mod c06;
@@ -29,6 +30,7 @@ macro_rules! dispatch {
             "C01" => $f(c01::C01, $($extra),*),
             "C02" => $f(c02::C02, $($extra),*),
             "C03" => $f(c03::C03, $($extra),*),
+            "C04" => $f(c04::C04, $($extra),*),
             "C05" => $f(c05::C05, $($extra),*),
             "C06" => $f(c06::C06, $($extra),*),
             "C07" => $f(c07::C07, $($extra),*),
@@ -102,6 +104,9 @@ fn main() {
             }
         }
         return;
+    }
+    if argv.first().map(|s| s == "--c04-child").unwrap_or(false) {
+        std::process::exit(c04::child_main());
     }
     let code = if argv.first().map(|s| s == "--worker").unwrap_or(false) {
         let id = argv.get(1).cloned().unwrap_or_default();
